@@ -261,7 +261,10 @@ def chainEnterP : List (Visitor σ) → Node → Option (Node × Bool) → List 
     | (.skip c', s') => chainEnterP vs (if isOrig then c' else orig) (some (c, isOrig)) entered true s'
     | (.raise e, s') => (.raise e, s')
 
-/-- `personal = false`: the code as it is (a member's `SkipNode` aborts the loop); `true`: with fix C18-W8 -/
+/-- `personal = true`: the code AS IT IS since fix C18-W8 (/repo 391ad62; re-extracted flag
+    `Generated.VisitTable.chainPersonalSkip`, which the driver passes): a member's `SkipNode` is its own.
+    `personal = false` (the default of this argument, kept for the theorems about the old loop): the code BEFORE the fix
+    (a member's `SkipNode` aborts the loop). -/
 def chained (vs : List (Visitor σ)) (personal : Bool := false) : Visitor σ where
   enter n s := if personal then chainEnterP vs n (some (n, true)) [] false s else chainEnter vs n (some (n, true)) s
   leave n s := chainLeave vs n s
